@@ -220,7 +220,14 @@ pub fn gen_structured(src: &mut Src, tab: &OpTable, all_ops: &[String]) -> Vec<(
         let item = match src.weighted(&[4, 3, 2, 2, 3, 2, 2, 1, 1]) {
             0 => (TK::Op, src.choose(all_ops).clone()),
             1 => (TK::Delim, src.choose(&["(", ")", "[", "]", "{", "}"]).to_string()),
-            2 => (TK::Num, src.choose(&["1", "0", "42", "1.5", "007", "0.10", "3.", "1234567890123456789012345678", "9.000"]).to_string()),
+            2 => (
+                TK::Num,
+                src.choose(&[
+                    "1", "0", "42", "1.5", "007", "0.10", "3.", "1234567890123456789012345678", "9.000", "9223372036854775807", "9223372036854775808", "9999999999999999999", "18446744073709551616",
+                    "4294967296", "0.0000000000000000000000000001",
+                ])
+                .to_string(),
+            ),
             3 => (TK::Str, gen_string_tok(src)),
             4 => {
                 let nm = gen_name(src);
